@@ -1,6 +1,6 @@
 #!/bin/sh
 # collect_mutant.sh <ID> <k>: after confirm_mutant.sh said the mutant is good, store it under /verif/seeded/<ID>-<k>/
-ID=$1; K=$2; O=/tmp/mut_${ID}_out; D=/verif/seeded/$ID-$K
+ID=$1; K=$2; O=/tmp/${PFX:-mut}_${ID}_out; D=/verif/seeded/$ID-$K
 mkdir -p $D && cp $O/patch$K.diff $D/patch.diff && rm -rf $D/demo && cp -r $O/demo$K $D/demo && cp $O/meta$K.json $D/meta.json
 rm -rf $D/demo/orig_build $D/demo/*.o $D/demo/query $D/demo/demo_bin 2>/dev/null
 find $D/demo -type f -size +300k -delete
